@@ -125,6 +125,7 @@ async function main () {
     if (e) { if (!knownHit.has(e.id)) knownHit.set(e.id, { e, n: 0 }); knownHit.get(e.id).n++ } else fresh.push(v)
   }
   for (const { e } of knownHit.values()) console.log(`KNOWN-FINDING: property=${driver.id} [${e.id}] ${e.text}`)
+  if (process.env.VERIF_DUMP) fs.writeFileSync(process.env.VERIF_DUMP, fresh.map((v) => JSON.stringify({ rule: v.rule, sig: v.sig, detail: v.detail })).join('\n'))
   const repDir = path.join(ROOT, 'replays', driver.id)
   let printed = 0
   for (const v of fresh) {
